@@ -456,6 +456,14 @@ fn pipeline_family(mut chk: Check) -> ! {
         let specs = &rounds[*ri];
         if let Some(e) = &out.infra_error {
             eprintln!("INFRA property={prop} round={ri}: {e}");
+            // keep the applications of that round for inspection (each file replays with --replay)
+            let dir = std::path::Path::new(vcommon::VERIF_ROOT).join(format!(".work/violations/{prop}"));
+            let _ = std::fs::create_dir_all(&dir);
+            for (k, spec) in specs.iter().enumerate() {
+                let f = dir.join(format!("infra-seed{}-round{ri}-app{k}.json", chk.settings.seed));
+                let _ = std::fs::write(&f, serde_json::to_string_pretty(&json!({"property": prop, "campaign": "pipeline", "signature": "infrastructure", "message": e, "case": {"spec": spec}})).unwrap());
+            }
+            eprintln!("INFRA applications of the round saved to {}", dir.display());
             chk.ev.label("round:infrastructure-trouble");
             chk.ev.write();
             std::process::exit(2);
@@ -1599,7 +1607,8 @@ fn verdict_check(mut chk: Check) -> ! {
                 chk.ev.evaluations += 1;
                 if v.timed_out && v.cpu_bound {
                     // the compiler process burnt its whole CPU budget (load-independent; warm runs need 1-5 s of CPU): it does not terminate
-                    save_violation(&mut chk, "chaos", "does-not-terminate:cpu-budget-exhausted", &format!("pavexc itself used more than {} s of CPU time on a {which} application ({}) without producing a verdict; comparable applications take 1-5 s", engine::cpu_limit_secs(), spec.note), spec, json!({"which": which}));
+                    let sig = if genr::transient_needed_by_own_error_handler(spec) { "does-not-terminate:transient-needed-by-its-own-error-handler" } else { "does-not-terminate:cpu-budget-exhausted" };
+                    save_violation(&mut chk, "chaos", sig, &format!("pavexc itself used more than {} s of CPU time on a {which} application ({}) without producing a verdict; comparable applications take 1-5 s", engine::cpu_limit_secs(), spec.note), spec, json!({"which": which}));
                     continue;
                 }
                 if v.timed_out {
